@@ -24,7 +24,8 @@ CONSTANTS
     Blueprints,                 \* set of blueprint records (see MC_ModelBuild)
     AsFound_LabourDemandLate,   \* TRUE: FixedMarginBusiness creates DEM_<labour> only in _GenerateEquations
     AsFound_LiteralSupGood,     \* TRUE: FixedMarginBusiness' PROF names SUP_GOOD literally
-    AsFound_DividendsPerPayer   \* TRUE: recipient = first sector with DIV (a paying business included), credited once per payer
+    AsFound_DividendsPerPayer,  \* TRUE: recipient = first sector with DIV (a paying business included), credited once per payer
+    AsFound_FirstRecipient      \* TRUE: with several possible dividend recipients the first declared one is paid (order dependent)
 
 P == 10007
 
@@ -351,7 +352,7 @@ RECURSIVE TaxAll(_, _, _, _, _)
 TaxAll(st, bp, s, ts, acc) ==
     IF ts = << >> THEN [st |-> st, terms |-> acc]
     ELSE LET t == Head(ts)
-         IN IF t = s \/ ~Taxable(KindOf(bp, t)) THEN TaxAll(st, bp, s, Tail(ts), acc)
+         IN IF t = s \/ ~(Taxable(KindOf(bp, t)) \/ Sec(bp, t).taxable) THEN TaxAll(st, bp, s, Tail(ts), acc)
             ELSE LET rate == IF HasVar(st, t, "TaxRate") THEN << t, "TaxRate" >> ELSE << s, "TaxRate" >>
                      mono == {rate, << t, "INC" >>}
                  IN TaxAll(AddCashFlow(st, t, -1, {<< t, "T" >>}, "T", FALSE, DSum(M1(mono, 1)), << t, "T" >>),
@@ -433,6 +434,12 @@ DividendRecipient(st, bp, decl, s) ==
              idx == { i \in 1..Len(cs) : cs[i] # s /\ KindOf(bp, cs[i]) \notin {"FixedMarginBusiness", "FixedMarginBusinessSub"} /\ HasVar(st, cs[i], "DIV") }
          IN IF idx = {} THEN 0 ELSE cs[Min(idx)]
 
+(* several sectors that could receive the dividends: refused (the choice would depend on the declaration order) *)
+AmbiguousRecipient(st, bp, decl, s) ==
+    LET cs == SectorsOfCountry(bp, decl, CountryOf(bp, s))
+        idx == { i \in 1..Len(cs) : cs[i] # s /\ KindOf(bp, cs[i]) \notin {"FixedMarginBusiness", "FixedMarginBusinessSub"} /\ HasVar(st, cs[i], "DIV") }
+    IN ~AsFound_FirstRecipient /\ ~AsFound_DividendsPerPayer /\ Cardinality(idx) > 1
+
 GenBusiness(st, bp, decl, s) ==
     LET d == Sec(bp, s)
         mk == { t \in Range(SectorsOfCountry(bp, decl, d.cc)) : CodeOf(bp, t) = d.good }
@@ -449,7 +456,8 @@ GenBusiness(st, bp, decl, s) ==
                           IN SetVar(b, s, "PROF", DSum(M1({Margin(s), msup}, 1)))
                      ELSE SetVar(st, s, lab, DVar(msup))
               t == DividendRecipient(st1, bp, decl, s)
-          IN IF t = 0 THEN st1
+          IN IF AmbiguousRecipient(st1, bp, decl, s) THEN Fail(st1, "more than one possible dividend recipient")
+             ELSE IF t = 0 THEN st1
              ELSE LET st2 == AddCashFlow(st1, s, -1, {<< s, "DIV" >>}, "DIV", FALSE, DVar(<< s, "PROF" >>), << s, "DIV" >>)
                   IN IF AsFound_DividendsPerPayer \/ Replaceable(st2.df[<< t, "DIV" >>])
                      THEN AddCashFlow(st2, t, 1, {<< t, "DIV" >>}, "DIV", TRUE, DVar(<< s, "PROF" >>), << t, "DIV" >>)
